@@ -66,6 +66,12 @@ type c19Target struct {
 	// argument (e.g. a context longer than 255 bytes passed to verification); as with
 	// panicsOnLength the panic is recognised by the condition, never by its wording.
 	docPanic func(b []byte) bool
+	// scalarAt: offsets of 32-byte fields that the format defines as canonical scalars (RFC 8032 S, RFC 9381 s,
+	// schnorrkel s and secret scalar, the canonical scalar decoders).  The same residue written as s + k*L is a
+	// malformed artifact that must be refused, whatever else is true of it.  scalarMarker: bit 255 of the field is
+	// a format marker and not part of the scalar (schnorrkel signatures).
+	scalarAt     []int
+	scalarMarker bool
 }
 
 var (
@@ -86,6 +92,7 @@ var (
 	c19stateChk    = core.RegCounter("c19.receiver_state_checks")
 	c19reencChk    = core.RegCounter("c19.reencode_checks")
 	c19ctlRejected = core.RegCounter("c19.control_artifact_rejected_run_skipped")
+	c19plusL       = core.RegCounter("c19.fault.scalar_field_plus_multiple_of_L")
 )
 
 var identityEd = func() []byte { b := make([]byte, 32); b[0] = 1; return b }()
@@ -238,9 +245,9 @@ func c19Targets() []c19Target {
 			return c19Res{ok: err == nil, reenc: enc, after: enc, hasAfter: true}
 		}
 	}
-	add(c19Target{name: "scalar.Scalar.UnmarshalBinary", size: 32, gen: genScalar, canonical: true, zero: zeros32,
+	add(c19Target{scalarAt: []int{0}, name: "scalar.Scalar.UnmarshalBinary", size: 32, gen: genScalar, canonical: true, zero: zeros32,
 		try: scalarTry(func(s *scalar.Scalar, b []byte) error { return s.UnmarshalBinary(b) })})
-	add(c19Target{name: "scalar.Scalar.SetCanonicalBytes", size: 32, gen: genScalar, canonical: true, zero: zeros32,
+	add(c19Target{scalarAt: []int{0}, name: "scalar.Scalar.SetCanonicalBytes", size: 32, gen: genScalar, canonical: true, zero: zeros32,
 		try: scalarTry(func(s *scalar.Scalar, b []byte) error { _, err := s.SetCanonicalBytes(b); return err })})
 	add(c19Target{name: "scalar.Scalar.SetBytesModOrder", size: 32, gen: genScalar, zero: zeros32,
 		try: func(c *c19Ctx, prev, b []byte) c19Res {
@@ -261,7 +268,7 @@ func c19Targets() []c19Target {
 			_, err := s.SetBytesModOrderWide(b)
 			return c19Res{ok: err == nil}
 		}})
-	add(c19Target{name: "scalar.ScMinimalVartime", size: 32, gen: genScalar,
+	add(c19Target{scalarAt: []int{0}, name: "scalar.ScMinimalVartime", size: 32, gen: genScalar,
 		try: func(c *c19Ctx, prev, b []byte) c19Res { return c19Res{ok: scalar.ScMinimalVartime(b)} }})
 	// ---- Ed25519 ----
 	add(c19Target{name: "ed25519.NewExpandedPublicKey", size: 32, gen: genEdPk,
@@ -279,7 +286,7 @@ func c19Targets() []c19Target {
 	for i, vo := range presets {
 		vo := vo
 		o := &ed25519.Options{Verify: vo}
-		add(c19Target{name: fmt.Sprintf("ed25519.VerifyWithOptions[preset%d](signature)", i), size: 64, gen: genEdSig,
+		add(c19Target{scalarAt: []int{32}, name: fmt.Sprintf("ed25519.VerifyWithOptions[preset%d](signature)", i), size: 64, gen: genEdSig,
 			try: func(c *c19Ctx, prev, b []byte) c19Res {
 				return c19Res{ok: ed25519.VerifyWithOptions(c.aux["pk"], c.aux["msg"], b, o)}
 			}})
@@ -287,7 +294,7 @@ func c19Targets() []c19Target {
 			try: func(c *c19Ctx, prev, b []byte) c19Res {
 				return c19Res{ok: ed25519.VerifyWithOptions(b, c.aux["msg"], c.aux["sig"], o)}
 			}})
-		add(c19Target{name: fmt.Sprintf("ed25519.BatchVerifier[preset%d](signature)", i), size: 64, gen: genEdSig,
+		add(c19Target{scalarAt: []int{32}, name: fmt.Sprintf("ed25519.BatchVerifier[preset%d](signature)", i), size: 64, gen: genEdSig,
 			try: func(c *c19Ctx, prev, b []byte) c19Res {
 				v := ed25519.NewBatchVerifier()
 				v.AddWithOptions(c.aux["pk"], c.aux["msg"], b, o)
@@ -308,7 +315,7 @@ func c19Targets() []c19Target {
 				return c19Res{ok: len(res) == 2 && res[0]}
 			}})
 	}
-	add(c19Target{name: "ed25519.VerifyExpandedWithOptions(signature)", size: 64, gen: genEdSig,
+	add(c19Target{scalarAt: []int{32}, name: "ed25519.VerifyExpandedWithOptions(signature)", size: 64, gen: genEdSig,
 		try: func(c *c19Ctx, prev, b []byte) c19Res {
 			e, err := ed25519.NewExpandedPublicKey(c.aux["pk"])
 			if err != nil {
@@ -322,7 +329,7 @@ func c19Targets() []c19Target {
 			v.AddPublicKey(b)
 			return c19Res{ok: v.VerifyWithOptions(b, c.aux["msg"], c.aux["sig"], &ed25519.Options{})}
 		}})
-	add(c19Target{name: "cache.Verifier.VerifyWithOptions(signature)", size: 64, gen: genEdSig,
+	add(c19Target{scalarAt: []int{32}, name: "cache.Verifier.VerifyWithOptions(signature)", size: 64, gen: genEdSig,
 		try: func(c *c19Ctx, prev, b []byte) c19Res {
 			v := cache.NewVerifier(cache.NewLRUCache(2))
 			bv := ed25519.NewBatchVerifier()
@@ -350,7 +357,7 @@ func c19Targets() []c19Target {
 			return c19Res{ok: len(k) == 64}
 		}})
 	// ---- ECVRF ----
-	add(c19Target{name: "ecvrf.Verify(proof)", size: 80, gen: genProof,
+	add(c19Target{scalarAt: []int{48}, name: "ecvrf.Verify(proof)", size: 80, gen: genProof,
 		try: func(c *c19Ctx, prev, b []byte) c19Res {
 			ok, beta := ecvrf.Verify(c.aux["pk"], b, c.aux["msg"])
 			if !ok && beta != nil {
@@ -358,7 +365,7 @@ func c19Targets() []c19Target {
 			}
 			return c19Res{ok: ok}
 		}})
-	add(c19Target{name: "ecvrf.Verify_v10(proof)", size: 80,
+	add(c19Target{scalarAt: []int{48}, name: "ecvrf.Verify_v10(proof)", size: 80,
 		gen: func(c *c19Ctx) []byte {
 			c.priv = c.g.EdKey()
 			c.aux["pk"] = clone(c.priv[32:])
@@ -377,7 +384,7 @@ func c19Targets() []c19Target {
 			ok, _ := ecvrf.Verify(b, c.aux["pi"], c.aux["msg"])
 			return c19Res{ok: ok}
 		}})
-	add(c19Target{name: "ecvrf.ProofToHash(proof)", size: 80, gen: genProof,
+	add(c19Target{scalarAt: []int{48}, name: "ecvrf.ProofToHash(proof)", size: 80, gen: genProof,
 		try: func(c *c19Ctx, prev, b []byte) c19Res {
 			h, err := ecvrf.ProofToHash(b)
 			if err != nil && h != nil {
@@ -421,7 +428,7 @@ func c19Targets() []c19Target {
 			return c19Res{ok: ok}
 		}})
 	// ---- sr25519 ----
-	add(c19Target{name: "sr25519.Signature.UnmarshalBinary", size: 64, neutral: srSigNeutral, canonical: true,
+	add(c19Target{scalarAt: []int{32}, scalarMarker: true, name: "sr25519.Signature.UnmarshalBinary", size: 64, neutral: srSigNeutral, canonical: true,
 		gen: func(c *c19Ctx) []byte {
 			kp := srKP(c)
 			c.aux["msg"] = c.g.Msg()
@@ -454,7 +461,7 @@ func c19Targets() []c19Target {
 			}
 			return c19Res{ok: err == nil, reenc: enc, after: enc, hasAfter: true}
 		}})
-	add(c19Target{name: "sr25519.NewSignatureFromBytes", size: 64, canonical: true,
+	add(c19Target{scalarAt: []int{32}, scalarMarker: true, name: "sr25519.NewSignatureFromBytes", size: 64, canonical: true,
 		gen: func(c *c19Ctx) []byte {
 			kp := srKP(c)
 			sig, err := kp.Sign(NewDetReader(uint64(c.g.T.W(1<<30))), sr25519.NewSigningContext([]byte("c19")).NewTranscriptBytes(c.g.Msg()))
@@ -499,7 +506,7 @@ func c19Targets() []c19Target {
 			}
 			return c19Res{ok: true, reenc: mustMarshal(pk.MarshalBinary())}
 		}})
-	add(c19Target{name: "sr25519.SecretKey.UnmarshalBinary", size: 64, canonical: true, zero: make([]byte, 64),
+	add(c19Target{scalarAt: []int{0}, name: "sr25519.SecretKey.UnmarshalBinary", size: 64, canonical: true, zero: make([]byte, 64),
 		gen: func(c *c19Ctx) []byte { return mustMarshal(srKP(c).SecretKey().MarshalBinary()) },
 		try: func(c *c19Ctx, prev, b []byte) c19Res {
 			var sk sr25519.SecretKey
@@ -510,7 +517,7 @@ func c19Targets() []c19Target {
 			enc := mustMarshal(sk.MarshalBinary())
 			return c19Res{ok: err == nil, reenc: enc, after: enc, hasAfter: true}
 		}})
-	add(c19Target{name: "sr25519.NewSecretKeyFromBytes", size: 64, canonical: true,
+	add(c19Target{scalarAt: []int{0}, name: "sr25519.NewSecretKeyFromBytes", size: 64, canonical: true,
 		gen: func(c *c19Ctx) []byte { return mustMarshal(srKP(c).SecretKey().MarshalBinary()) },
 		try: func(c *c19Ctx, prev, b []byte) c19Res {
 			sk, err := sr25519.NewSecretKeyFromBytes(b)
@@ -563,7 +570,7 @@ func c19Targets() []c19Target {
 			}
 			return c19Res{ok: true, reenc: mustMarshal(m.MarshalBinary())}
 		}})
-	add(c19Target{name: "sr25519.KeyPair.UnmarshalBinary", size: 96, neutral: make([]byte, 96), canonical: true,
+	add(c19Target{scalarAt: []int{0}, name: "sr25519.KeyPair.UnmarshalBinary", size: 96, neutral: make([]byte, 96), canonical: true,
 		gen: func(c *c19Ctx) []byte { return mustMarshal(srKP(c).MarshalBinary()) },
 		try: func(c *c19Ctx, prev, b []byte) c19Res {
 			var kp sr25519.KeyPair
@@ -574,7 +581,7 @@ func c19Targets() []c19Target {
 			enc := mustMarshal(kp.MarshalBinary())
 			return c19Res{ok: err == nil, reenc: enc, after: enc, hasAfter: true}
 		}})
-	add(c19Target{name: "sr25519.NewKeyPairFromBytes", size: 96, canonical: true,
+	add(c19Target{scalarAt: []int{0}, name: "sr25519.NewKeyPairFromBytes", size: 96, canonical: true,
 		gen: func(c *c19Ctx) []byte { return mustMarshal(srKP(c).MarshalBinary()) },
 		try: func(c *c19Ctx, prev, b []byte) c19Res {
 			kp, err := sr25519.NewKeyPairFromBytes(b)
@@ -676,9 +683,29 @@ func init() {
 	})
 }
 
-func c19Faults(g *Gen, a []byte, visit func(kind int, name string, b []byte)) {
+func c19Faults(g *Gen, tg *c19Target, a []byte, visit func(kind int, name string, b []byte)) {
 	n := len(a)
 	visit(c19valid, "none", clone(a))
+	for _, off := range tg.scalarAt {
+		if off+32 > n {
+			continue
+		}
+		f := clone(a[off : off+32])
+		var marker byte
+		if tg.scalarMarker {
+			marker = f[31] & 0x80
+			f[31] &= 0x7f
+		}
+		for k := 1; k <= 15; k++ {
+			if !addL(f) || (tg.scalarMarker && f[31]&0x80 != 0) {
+				break
+			}
+			b := clone(a)
+			copy(b[off:], f)
+			b[off+31] |= marker
+			visit(c19plusL, "scalar-plus-kL", b)
+		}
+	}
 	for l := 0; l < n; l++ {
 		visit(c19truncate, "truncate", clone(a[:l]))
 	}
@@ -783,7 +810,7 @@ func runC19(e *Env, r *core.Run) {
 	}
 	accepted, rejected := 0, 0
 	reported := map[string]bool{}
-	c19Faults(g, a, func(kind int, fname string, b []byte) {
+	c19Faults(g, &tg, a, func(kind int, fname string, b []byte) {
 		if Hung {
 			return
 		}
@@ -839,6 +866,10 @@ func runC19(e *Env, r *core.Run) {
 		} else {
 			rejected++
 			r.Count(c19rejected)
+		}
+		if fname == "scalar-plus-kL" && res.ok {
+			fail("malformed-accepted", fname, "accepted although a scalar field holds a value that is not below the group order (the original plus a multiple of L)")
+			return
 		}
 		if len(b) != tg.size && !tg.anyLength && res.ok {
 			fail("malformed-accepted", fname, "input of length %d accepted (the encoding is %d bytes)", len(b), tg.size)
